@@ -97,6 +97,23 @@ func c06Worker(env *fw.Env) {
 		}
 		c06One(env, i)
 	}
+	// the T3 clause under a slow write (c06_t3.go)
+	k := total
+	for rep := 0; rep < env.Pick(1, 6); rep++ {
+		for _, variant := range []string{"own-write-blocked", "queued-behind-stalled-write"} {
+			for _, active := range []bool{true, false} {
+				i := k
+				k++
+				if !env.Mine(i) || !env.Want(i) {
+					continue
+				}
+				if env.Stop() {
+					return
+				}
+				c06SlowWrite(env, i, active, variant)
+			}
+		}
+	}
 }
 
 //nolint:gocyclo,cyclop // one history: workload, peer program and the offline scan
